@@ -237,6 +237,18 @@ def unit_tri(prop, which):
             raises = z3.Not(z3.And(0 <= low, low < high, high <= rate / 2 + 1))
             u.obligations.append(Obligation(f"{prop}.__init__.rejection_sentence_implied", [rate > 0], z3.Implies(stated, raises), "lemma", None))
             return u
+        if which == "frequency":
+            u = None
+            for half in (False, True):
+                r = run_contract(prop, ("filters", f"{C.CLS}.get_frequency_response"), C.contract_frequency(half), [("half" if half else "full", C.setup_frequency(half))],
+                                 name="tri_frequency", to_case=C.to_case_frequency, replay_module="rtc.c06")
+                if u is None:
+                    u = r
+                else:
+                    u.obligations += r.obligations
+                    u.canaries += r.canaries
+                    u.outside += r.outside
+            return u
         setup = {"truncated": C.setup_method}[which]
         contract = {"truncated": C.contract_truncated}[which]()
         return run_contract(prop, ("filters", f"{C.CLS}.get_{which}_response"), contract, [("", setup)], name="tri_" + which, to_case=C.to_case, replay_module="rtc.c05_tri")
@@ -501,7 +513,7 @@ UNITS = {
             _lazy("contracts.sphere_header", "unit_sphere_read_signal", "C12")],
     "C20": [unit_circshift("C20"), _lazy("contracts.util_misc", "unit_angular", "C20"), unit_windows("C20"), _lazy("contracts.purity", "unit_purity", "C20"), _lazy("contracts.windows", "unit_gamma", "C20"), _lazy("contracts.util_misc", "unit_gauss_quant", "C20")],
     "C05": [unit_tri("C05", "init"), unit_tri("C05", "truncated"), unit_fbank("C05", "init"), unit_fbank("C05", "truncated"), unit_gabor("C05"), unit_gamma_prefix("C05"), _lazy("contracts.purity", "unit_purity", "C05")],
-    "C06": [unit_tri("C06", "truncated"), unit_tri("C06", "init"), unit_fbank("C06", "truncated"), unit_fbank("C06", "init"), _lazy("contracts.purity", "unit_purity", "C06")],
+    "C06": [unit_tri("C06", "frequency"), unit_tri("C06", "truncated"), unit_tri("C06", "init"), unit_fbank("C06", "truncated"), unit_fbank("C06", "init"), _lazy("contracts.purity", "unit_purity", "C06")],
     "C14": [unit_torch_stft("C14"), unit_torch_wrappers("C14"), _lazy("contracts.torch_wrappers", "unit_from_stft", "C14")],
     "C09": [unit_torch_stft("C09")] + [_lazy_list("contracts.cli", "units", "C09", k) for k in range(8)] + [_lazy("contracts.cli", "unit_config_type", "C09")],
     "C10": [_lazy_list("contracts.cli", "units", "C10", k) for k in range(6)] + [_lazy("contracts.purity", "unit_purity", "C10")],
